@@ -2,8 +2,9 @@
 # Runs the repository's own test suite (guard off: no build tag, no overlay).
 export GOFLAGS=-mod=mod GOPROXY=off GOSUMDB=off GOTOOLCHAIN=local
 rc=0
+R=${BASE_REPO:-/repo}   # BASE_REPO: another checkout (seeded-change testing)
 for m in . attachment protocol service shared terminal; do
-  out=$( cd /repo/$m && go test -mod=mod -vet=off -count=1 -timeout 25m ./... 2>&1 ); r=$?
+  out=$( cd $R/$m && go test -mod=mod -vet=off -count=1 -timeout 25m ./... 2>&1 ); r=$?
   echo "$out"
   # the root module holds no packages: `go test ./...` exits 1 with "no packages to test"
   if [ $r -ne 0 ] && ! echo "$out" | grep -q "no packages to test"; then rc=1; fi
